@@ -241,6 +241,29 @@ def r4_direction_domain(chk, F):
                 continue
             ep = eng.deref(st, args[0])
             rl, rm = recs(st, "leap_seconds"), recs(st, "unit*f64")
+            if len(rl) == 2 and dst == "UTC" and src != "UTC":
+                # the two-step scheme (look up at the TAI count, subtract, look up again at that elapsed-UTC estimate and apply the
+                # second value) is a correct way to key the table on elapsed UTC: accept it
+                def lk(i):
+                    k_ = eng.deref(st, rl[i][0][0])
+                    lv_ = rl[i][1]
+                    lv_ = st.enum_ref.get(lv_.name, lv_) if isinstance(lv_, SymEnum) else lv_
+                    nm_ = ordering_name(eng, lv_)
+                    ap_ = [m for m in rm if scale_name(eng, st, m[0][0]) == "Second" and nm_ == "Some" and m[0][1] is lv_.fs[0]]
+                    L_ = D.total(ap_[0][1]) if ap_ else Lin.const(0)
+                    return k_, nm_, L_, (nm_ == "None" or len(ap_) == 1)
+                k1, n1, L1, ok1 = lk(0)
+                k2, n2, L2, ok2 = lk(1)
+                T0 = D.total(eng.deref(st, args[0]).fs[0])
+                K = oracle.tai_offset_ns(src) if src != "TAI" else 0
+                res = st.ret
+                TR = D.total(res.fs[0]) if isinstance(res, Struct) else None
+                st2 = st.clone()
+                D.close(st2, [x for x in (TR, T0, L1, L2, D.total(k1.fs[0]), D.total(k2.fs[0])) if x is not None])
+                ok = ok1 and ok2 and TR is not None and D.implies_eq(st2, D.total(k1.fs[0]), T0 + K) and D.implies_eq(st2, D.total(k2.fs[0]), T0 + K - L1) and \
+                    D.implies_eq(st2, TR, T0 + K - L2) and scale_name(eng, st, k1.fs[1]) == "TAI" and scale_name(eng, st, k2.fs[1]) == "TAI"
+                chk.ob(rule, inst, "two-step-lookup(keyed-on-elapsed-UTC-estimate)", ok, "Duration-level linear forms")
+                continue
             if len(rl) != 1:
                 chk.ob(rule, inst, "one-leap-second-lookup", False, detail=len(rl))
                 continue
